@@ -75,8 +75,8 @@ TMapOf(id) == LET r == opts[id].tref
               IN IF "own" \in DOMAIN r THEN (IF cfgs[id].tmk = "quad" THEN [kind |-> "quad"] ELSE [kind |-> "sq", scale |-> One])
                  ELSE [kind |-> "sq", scale |-> mstate[r.user].tval]
 SMapOf(id) == LET r == opts[id].sref
-              IN IF "own" \in DOMAIN r THEN (IF cfgs[id].smk = "id" THEN [kind |-> "id"] ELSE [kind |-> "lift", gain |-> "1/4"])
-                 ELSE [kind |-> "lift", gain |-> mstate[r.user].sval]
+              IN IF "own" \in DOMAIN r THEN (IF cfgs[id].smk = "id" THEN [kind |-> "id"] ELSE [kind |-> "lift", gain |-> "1/4", pin |-> -1])
+                 ELSE [kind |-> "lift", gain |-> mstate[r.user].sval, pin |-> mstate[r.user].spin]
 MathCfg(id) ==
     LET c == cfgs[id]
     IN [s |-> SOf(c.order), D |-> c.dim, t0 |-> c.ref.t0, T |-> c.ref.T, P |-> c.ref.P, BS |-> c.ref.BS, BE |-> c.ref.BE,
@@ -160,8 +160,9 @@ TrSetSMap == IsEvent("set_smap") /\ sc' = Force(StepRec(<<>>, <<"setters">>))
              /\ OSetSMap(Ev.obj, IF cfgs[Ev.obj].smk = "lift" THEN MapId(Ev) ELSE 0) /\ Record
 \* user maps: ids of time maps and spatial maps share one name space in the scripts
 MapWith(m, f, v) == With(mstate, m, (IF m \in DOMAIN mstate THEN [g \in DOMAIN mstate[m] \ {f} |-> mstate[m][g]] ELSE << >>) @@ (f :> v))
+MapWith2(m, f, v, f2, v2) == With(mstate, m, (IF m \in DOMAIN mstate THEN [g \in DOMAIN mstate[m] \ {f, f2} |-> mstate[m][g]] ELSE << >>) @@ (f :> v) @@ (f2 :> v2))
 TrMapNew == (IsEvent("tmap_new") \/ IsEvent("smap_new"))
-            /\ sc' = Force([StepRec(<<>>, <<"maps">>) EXCEPT !.mstate = IF Ev.e = "tmap_new" THEN MapWith(Ev.map, "tval", H(Ev.scale)) ELSE MapWith(Ev.map, "sval", H(Ev.gain))])
+            /\ sc' = Force([StepRec(<<>>, <<"maps">>) EXCEPT !.mstate = IF Ev.e = "tmap_new" THEN MapWith(Ev.map, "tval", H(Ev.scale)) ELSE MapWith2(Ev.map, "sval", H(Ev.gain), "spin", IF Has(Ev, "pin") THEN Ev.pin ELSE -1)])
             /\ MapNew(Ev.map) /\ Record
 TrMapSet == (IsEvent("tmap_set") \/ IsEvent("smap_set"))
             /\ sc' = Force([StepRec(<<>>, <<"map_mutations">>) EXCEPT !.mstate = IF Ev.e = "tmap_set" THEN MapWith(Ev.map, "tval", H(Ev.scale)) ELSE MapWith(Ev.map, "sval", H(Ev.gain))])
